@@ -1643,6 +1643,13 @@ func (w *htlcWorkload) Next(block int) []rig.Tx {
 	for _, a := range acts {
 		txs = append(txs, w.doAction(st, a)...)
 	}
+	// twice per chain the asset with the most recorded activity is switched off by the authority and, a few blocks
+	// later, on again: its supply record (open transfers, current supply) must come through unchanged
+	if !w.shared && (block%60 == 40 || block%60 == 46) {
+		if tx, ok := w.flipActive(st, block%60 == 46); ok {
+			txs = append(txs, tx)
+		}
+	}
 	n := 1 + w.rng.Intn(3)
 	for i := 0; i < n; i++ {
 		if len(w.script) > 0 && (i == 0 || w.rng.Intn(2) == 0) {
@@ -1654,6 +1661,48 @@ func (w *htlcWorkload) Next(block int) []rig.Tx {
 		txs = append(txs, w.intent(st)...)
 	}
 	return txs
+}
+
+// flipActive deactivates (on == false) the active asset with the largest recorded supplies, or reactivates (on == true)
+// every inactive asset.
+func (w *htlcWorkload) flipActive(st *htState, on bool) (rig.Tx, bool) {
+	if len(st.params.AssetParams) == 0 {
+		return rig.Tx{}, false
+	}
+	p := htlctypes.Params{AssetParams: append([]htlctypes.AssetParam{}, st.params.AssetParams...)}
+	note, changed := "deactivate-busiest", false
+	if on {
+		note = "reactivate"
+		for i := range p.AssetParams {
+			if !p.AssetParams[i].Active {
+				p.AssetParams[i].Active, changed = true, true
+			}
+		}
+	} else {
+		best, bestAmt := -1, new(big.Int)
+		for i, a := range p.AssetParams {
+			sup, ok := st.sup[a.Denom]
+			if !ok || !a.Active {
+				continue
+			}
+			amt := new(big.Int).Add(bi(sup.IncomingSupply.Amount), bi(sup.OutgoingSupply.Amount))
+			amt.Add(amt, bi(sup.CurrentSupply.Amount))
+			if best < 0 || amt.Cmp(bestAmt) > 0 {
+				best, bestAmt = i, amt
+			}
+		}
+		if best >= 0 {
+			p.AssetParams[best].Active, changed = false, true
+		}
+	}
+	acc, ok := w.pickAcc()
+	if !changed || !ok {
+		return rig.Tx{}, false
+	}
+	for _, x := range p.AssetParams {
+		w.touched[x.Denom] = true
+	}
+	return w.r.InjectRoute(w.r.Acc(acc), &htTag{Kind: "params", Note: note}, &htlctypes.MsgUpdateParams{Authority: w.r.GovAddr.String(), Params: p}), true
 }
 
 func htTimingName(t, c, e int64) string {
